@@ -39,7 +39,7 @@ ASSUMPTIONS = [
   'module paths are taken from Module.path (naming is C02 territory); the check is that the key is the stated function of (seed, stream, path, count)',
   'distinctness is demanded modulo the derivation\'s own 32-bit hash truncation: positions whose model hashes coincide are counted in a probe and skipped',
 ]
-PROBES = ['attr_cold_class_compared', 'nnx_runs', 'linen_runs', 'missing_stream_default', 'split_ctx_raises', 'restore_resumes', 'reseed', 'jit_draw', 'vmap_draw', 'clone_predicted_duplicate', 'linen_fallback_params', 'separator_on', 'separator_off', 'edit_invariance_checked', 'hash_collision_skipped', 'init_keys_checked', 'linen_jit_child', 'linen_method_runs', 'plain_and_jitted_method_share_child', 'reseed_several_same_name', 'linen_loop_runs', 'linen_attr_runs', 'draws_in_loop_predicate_and_body']
+PROBES = ['linen_mapv_runs', 'attr_cold_class_compared', 'nnx_runs', 'linen_runs', 'missing_stream_default', 'split_ctx_raises', 'restore_resumes', 'reseed', 'jit_draw', 'vmap_draw', 'clone_predicted_duplicate', 'linen_fallback_params', 'separator_on', 'separator_off', 'edit_invariance_checked', 'hash_collision_skipped', 'init_keys_checked', 'linen_jit_child', 'linen_method_runs', 'plain_and_jitted_method_share_child', 'reseed_several_same_name', 'linen_loop_runs', 'linen_attr_runs', 'draws_in_loop_predicate_and_body']
 
 
 def setup_worker(w, tier):
@@ -60,10 +60,13 @@ def generate(rs, tier):
     return gen_nnx(g)
   if r < 0.62:
     return gen_methods(g)
-  if r < 0.70 and r >= 0.67:
+  if r < 0.72 and r >= 0.67:
     # sub-modules created by the caller and handed to a (jitted) module as dataclass attributes
     n = g.choice([2, 2, 3])
-    return dict(engine='linenworld', knobs=dict(kind='linen_attr', separator=g.random() < 0.6, n=n, lift=g.choice(['jit', 'jit', 'fold', 'plain']), calls=[g.randrange(n) for _ in range(g.randrange(2, 6))], seed=g.randrange(4)), ops=[])
+    return dict(engine='linenworld', knobs=dict(kind='linen_attr', separator=g.random() < 0.6, n=n, lift=g.choice(['jit', 'jit', 'fold', 'plain']), calls=[g.randrange(n) for _ in range(g.randrange(2, 6))], calls2=[g.randrange(n) for _ in range(g.randrange(1, 6))], seed=g.randrange(4)), ops=[])
+  if r < 0.645 and r >= 0.62:
+    # parameters and draws inside an identity nn.map_variables(..., init=True) (its body is run more than once at init)
+    return dict(engine='linenworld', knobs=dict(kind='linen_mapv', separator=g.random() < 0.6, draw_stream=g.choice(['params', 'noise', 'missing']), col=g.choice(['params', 'stats']), mutable=g.random() < 0.7, n_params=g.choice([1, 2]), seed=g.randrange(4)), ops=[])
   if r < 0.67:
     return dict(engine='linenworld', knobs=dict(kind='linen_loop', separator=g.random() < 0.6, trips=g.randrange(0, 4), split=g.random() < 0.7, n_cond=g.choice([1, 1, 2]), n_body=g.choice([0, 1, 1, 2]), pre=g.random() < 0.6, post=g.random() < 0.7, seed=g.randrange(4)), ops=[])
   return gen_linen(g)
@@ -663,8 +666,14 @@ class AttrRun:
   def run(self):
     k = self.plan['knobs']
     self.res.probe('linen_attr_runs')
+    # the same class with two different values of the static / Python argument `order`, one after the other
+    # (... and the first value again: now a cache hit whose record must still be the one of ITS trace)
+    for calls in [k['calls']] + ([k['calls2'], k['calls']] if k.get('calls2') else []):
+      self.run_order(tuple(calls))
+
+  def run_order(self, order):
+    k = self.plan['knobs']
     Top = attr_classes(k['n'], k['lift'], k['separator'])
-    order = tuple(k['calls'])
     outs = []
     for _ in range(2):
       out = Top(order=order).apply({}, rngs={'noise': jax.random.key(70 + k['seed'])})
@@ -696,6 +705,59 @@ class AttrRun:
         if kb != np.asarray(jax.random.key_data(want)).tobytes():
           raise Violation('key-differs-from-model', f'attribute-module program (plain): child kid{i} draw {c} is not fold_in(seed, sha1(path + count))')
     self.log.add('attr', len(order))
+
+
+class MapvRun:
+  """Keys handed out inside an identity nn.map_variables(..., init=True): lift.map_variables runs the wrapped body more
+  than once while initialising; every key that user code receives during ONE init - by an initialiser or by make_rng,
+  in whichever pass - is a different key, and the same init twice hands out the same keys."""
+
+  def __init__(self, plan, res, log):
+    self.plan, self.res, self.log = plan, res, log
+    self.compared = 0
+
+  def once(self):
+    k = self.plan['knobs']
+    got = []
+
+    def rec_init(key, shape, dtype=jnp.float32):
+      if not isinstance(key, jax.core.Tracer):  # (Scope.param re-runs initialisers abstractly, on a dummy key, to check shapes)
+        got.append(('init', np.asarray(jax.random.key_data(key)).tobytes()))
+      return jnp.zeros(shape, dtype)
+
+    class Inner(nn.Module):
+      @nn.compact
+      def __call__(self, x):
+        for i in range(k['n_params']):
+          x = x + self.param(f'w{i}', rec_init, (2,))
+        got.append(('draw', np.asarray(jax.random.key_data(self.make_rng(k['draw_stream']))).tobytes()))
+        return x
+
+    Mapped = nn.map_variables(Inner, k['col'], mutable=k['mutable'], init=True)
+
+    class Outer(nn.Module):
+      @nn.compact
+      def __call__(self, x):
+        return Mapped(name='m')(x)
+
+    rngs = {'params': jax.random.key(90 + k['seed'])}
+    if k['draw_stream'] == 'noise':
+      rngs['noise'] = jax.random.key(95 + k['seed'])
+    Outer().init(rngs, jnp.zeros((2,), jnp.float32))
+    return got
+
+  def run(self):
+    self.res.probe('linen_mapv_runs')
+    a, b = self.once(), self.once()
+    if a != b:
+      raise Violation('keys-not-deterministic', 'init of a module under nn.map_variables(init=True): the same program with the same seeds handed out different keys on its second run')
+    seen = {}
+    for n, (what, kb) in enumerate(a):
+      if kb in seen:
+        raise Violation('key-reused', f'init of a module under nn.map_variables(init=True): key #{n} ({what}) is the key already handed out as #{seen[kb][0]} ({seen[kb][1]}) in the same init')
+      seen[kb] = (n, what)
+      self.compared += 1
+    self.log.add('mapv', len(a))
 
 
 class LoopRun:
@@ -775,9 +837,9 @@ def execute(plan):
           w.step(oi, op)
       finally:
         compared = w.compared
-    elif k['kind'] in ('linen_methods', 'linen_loop', 'linen_attr'):
+    elif k['kind'] in ('linen_methods', 'linen_loop', 'linen_attr', 'linen_mapv'):
       flax.config.update('flax_fix_rng_separator', k['separator'])
-      lr = {'linen_methods': MethodsRun, 'linen_loop': LoopRun, 'linen_attr': AttrRun}[k['kind']](plan, res, log)
+      lr = {'linen_methods': MethodsRun, 'linen_loop': LoopRun, 'linen_attr': AttrRun, 'linen_mapv': MapvRun}[k['kind']](plan, res, log)
       try:
         lr.run()
       finally:
